@@ -179,3 +179,10 @@ Definition div_s (x y : Z) : Z * Z :=
 
 (* 7.24.5.2 etc.: "c (converted to a char)", in the unsigned-byte representation of narrow characters *)
 Definition conv_char (wide : bool) (c : Z) : Z := if wide then c else c mod 256.
+
+(** * The library's own entry contract for null pointers (NOT ISO C, where a null argument is undefined behaviour):
+   etl::strcpy, strncpy, wcscpy, wcsncpy, strchr and memmove document `TETL_PRECONDITION(ptr != nullptr)` for each
+   pointer argument, so with contract checks enabled a null argument must end in the contract handler; strrchr /
+   wcsrchr instead define the result for a null string: a null pointer (pinned by tests/cstring). *)
+Definition precondition_violated (is_null : list bool) : bool := existsb (fun b => b) is_null.
+Definition strrchr_null_s : option nat := None.
